@@ -36,6 +36,10 @@ class HUa:
         namespace = NS_M
 
     inner: Optional[HKid] = field(default=None, metadata={"type": "Element"})
+    # values that belong to the scope of the union element ITSELF: an attribute (bound when the element ends) and a
+    # later child that makes no declarations of its own
+    after: Optional[HKid] = field(default=None, metadata={"type": "Element"})
+    ref: Optional[QName] = field(default=None, metadata={"type": "Attribute"})
 
 
 @dataclass
@@ -123,6 +127,14 @@ def scoping_doc(levels, prefix: str, decoys: bool = False) -> str:
         f'<m:HRoot xmlns:m="{NS_M}"{decl_text(levels[0]["decls"])}>{pre}'
         f'<m:{mid}{decl_text(levels[1]["decls"])}><m:q{decl_text(levels[2]["decls"])}>{val}</m:q></m:{mid}></m:HRoot>'
     )
+
+
+def union_sibling_doc(levels, prefix: str) -> str:
+    """The union document with a QName attribute on the union element and a child AFTER the one that makes the
+    innermost declarations: both are in the scope of the union element, not of its first child."""
+    val = f"{prefix}:x" if prefix else "x"
+    return (f'<m:HRoot xmlns:m="{NS_M}"{decl_text(levels[0]["decls"])}><m:u{decl_text(levels[1]["decls"])} ref="{val}">'
+            f'<m:inner{decl_text(levels[2]["decls"])}><m:q>{val}</m:q></m:inner><m:after><m:q>{val}</m:q></m:after></m:u></m:HRoot>')
 
 
 def leaf_value(obj):
